@@ -24,12 +24,12 @@ FlagSets == [1..D -> BOOLEAN]
 AllFalse == [j \in 1..D |-> FALSE]
 ZeroPad  == [j \in 1..D |-> <<0, 0>>]
 
-Cfgs == {c \in [N : Ns, M : Ms, torus : FlagSets, mode : Modes, pad : Pads \cup {ZeroPad},
-                stride : StrideSet, rdil : RdilSet, ldil : LdilSet] :
-           /\ (c.mode # "TORUS" => c.torus = AllFalse)          \* flags are read in TORUS mode only
-           /\ (c.mode # "EXPL"  => c.pad = ZeroPad)
-           /\ (c.mode = "EXPL"  => c.pad \in Pads)
-           /\ Admissible(c)}
+(* the admissible cells of the option lattice; the quantifiers are nested with dependent domains so that TLC never builds
+   the unfiltered product (which exceeds its 10^6-element set bound for the thorough constants) *)
+MkCfg(N, M, torus, mode, pad, stride, rdil, ldil) ==
+  [N |-> N, M |-> M, torus |-> torus, mode |-> mode, pad |-> pad, stride |-> stride, rdil |-> rdil, ldil |-> ldil]
+FlagsFor(mode) == IF mode = "TORUS" THEN FlagSets ELSE {AllFalse}          \* flags are read in TORUS mode only
+PadsFor(mode)  == IF mode = "EXPL" THEN Pads ELSE {ZeroPad}
 
 Gens == IF D = 2 THEN {[p |-> <<2, 1>>, s |-> <<-1, 1>>], [p |-> <<1, 2>>, s |-> <<-1, 1>>]}
         ELSE {[p |-> <<2, 1, 3>>, s |-> <<-1, 1, 1>>],      \* 4-fold rotation about axis 3
@@ -38,7 +38,11 @@ Gens == IF D = 2 THEN {[p |-> <<2, 1>>, s |-> <<-1, 1>>], [p |-> <<1, 2>>, s |->
 Elems == IF GroupMode = "all" THEN B(D) ELSE IF GroupMode = "gens" THEN Gens ELSE {}
 
 Init == st = [kind |-> "init"]
-PickCfg == st.kind = "init" /\ \E c \in Cfgs : st' = [kind |-> "cfg", c |-> c]
+PickCfg == /\ st.kind = "init"
+           /\ \E N \in Ns, M \in Ms, mode \in Modes, stride \in StrideSet, rdil \in RdilSet, ldil \in LdilSet :
+                \E torus \in FlagsFor(mode), pad \in PadsFor(mode) :
+                   LET c == MkCfg(N, M, torus, mode, pad, stride, rdil, ldil) IN
+                   Admissible(c) /\ st' = [kind |-> "cfg", c |-> c]
 PickG   == st.kind = "cfg" /\ UnitStride(st.c) /\ \E g \in Elems : st' = [kind |-> "cg", c |-> st.c, g |-> g]
 Next == PickCfg \/ PickG
 
